@@ -1843,7 +1843,7 @@ def media_case(case, full, guard):
                 if len(d) >= 12 and (d[0] >> 6) == 2 and not (192 <= d[1] <= 208):
                     pt, ts = d[1] & 0x7F, struct.unpack_from("!L", d, 4)[0]
                     ref = m.vts if pt in (PT_VP8, PT_RTX, PT_H264, PT_RTX_BADAPT) else m.ats if pt in (PT_PCMU, PT_OPUS) else None
-                    if ref is not None and serial_gt(ts, ref & M32):
+                    if ref is not None and 1 <= ((ts - ref) & M32) <= 0x80000000:
                         ts_ahead = True
             for data in burst:      # a class may be a sequence of datagrams; judged at the first that fails
                 m.loop.wall += 0.005 if len(burst) == 1 else 0.03
